@@ -179,7 +179,35 @@ func (c *runCtx) c19Case(kind string, es []zspec) {
 
 var _ = io.EOF
 
+// archives without entries (a standard writer closed at once, with and without a comment): plain application/zip
+func c19Empty(c *runCtx) {
+	for i, comment := range []string{"", "no entries", strings.Repeat("c", 300)} {
+		var buf bytes.Buffer
+		w := zip.NewWriter(&buf)
+		if comment != "" {
+			w.SetComment(comment)
+		}
+		w.Close()
+		a := buf.Bytes()
+		if !c.mine(a, []byte("empty")) {
+			continue
+		}
+		for _, lim := range []uint32{0, 3072} {
+			m, pan := detectAt(a, lim)
+			chain := "PANIC"
+			if pan == nil && m != nil {
+				chain = chainOf(m)
+			}
+			c.stats.note("empty-archive", append([]byte{byte(i), byte(lim)}, a...), len(a), true)
+			if !strings.HasPrefix(chain, "application/zip|.zip;") {
+				c.propfail("C19", fmt.Sprintf("archive without entries (comment of %d bytes) not reported as plain application/zip: limit=%d result=%s bytes=%s", len(comment), lim, chain, hx(a[:min(len(a), 40)])))
+			}
+		}
+	}
+}
+
 func runC19(c *runCtx) {
+	c19Empty(c)
 	r := c.rng
 	bookkeeping := []string{"_rels/.rels", "docProps/app.xml", "docProps/core.xml", "customXml/item1.xml", "[trash]/0000.dat", "docProps/", "customXml/_rels/item1.xml.rels"}
 	markers := map[string][]string{
